@@ -298,7 +298,10 @@ def _balanced(t):
 
 def require_ok(res, what):
     if res.status == "error":
-        tail = "\n".join(res.stdout.splitlines()[-40:])
+        lines = res.stdout.splitlines()
+        first = [i for i, ln in enumerate(lines) if ln.startswith("Error:") or "Exception" in ln]
+        head = "\n".join(lines[first[0]:first[0] + 12]) if first else ""
+        tail = head + "\n...\n" + "\n".join(lines[-8:])
         raise TLCError("TLC failed for %s (cmd: %s):\n%s" % (what, res.cmd, tail))
     return res
 
